@@ -114,7 +114,7 @@ func VerifC04() {
 
 	// histories start fresh, in the middle of a local offer, or after a completed
 	// exchange (fixed prefixes), and continue with arbitrary calls
-	prefixes := [][]int{{}, {0, 4}, {1, 4, 5}, {3, 6}}
+	prefixes := [][]int{{}, {0, 4}, {1, 4, 5}, {3, 6}, {0, 4, 5, 1}}
 	prefix := prefixes[verif.Choice("prefix", len(prefixes))]
 	steps := verif.Param("steps", 3)
 	if len(prefix) > 0 {
